@@ -17,6 +17,7 @@ import hashlib
 import hmac
 import os
 import struct
+import zlib as _zlib
 
 from cryptography.exceptions import InvalidSignature, InvalidTag
 from cryptography.hazmat.primitives import hashes
@@ -438,8 +439,13 @@ class MiniSSH:
         self.enc_algs = [_b(a) for a in (enc_algs or DEFAULT_ENC)]
         self.mac_algs = [_b(a) for a in (mac_algs or DEFAULT_MAC)]
         self.comp_algs = [_b(a) for a in comp_algs]
-        if self.comp_algs != [b'none']:
-            raise ValueError('only compression "none" is implemented')
+        if any(a not in (b'none', b'zlib', b'zlib@openssh.com') for a in self.comp_algs):
+            raise ValueError('compression methods implemented: none, zlib, zlib@openssh.com')
+        # compression state (RFC 4253 6.2: one deflate stream per direction, partial flush per packet,
+        # re-initialised after every key exchange; zlib@openssh.com: only once authentication succeeded)
+        self._tx_comp = self._rx_comp = None
+        self._tx_comp_alg = self._rx_comp_alg = b'none'
+        self.authenticated = False
         self.strict_kex, self.rng, self.auto_kex = strict_kex, rng, auto_kex
         # public, read-only for callers
         self.inbox, self.raw_packets, self.log, self.banner_lines = [], [], [], []
@@ -512,6 +518,11 @@ class MiniSSH:
     # -- binary packet protocol (RFC 4253 6) ------------------------------------------------------------
     def _frame(self, payload, padlen=None, bad_mac=False, seq=None):
         tx = self._tx
+        was_success = bool(payload) and payload[0] == 52 and not self.is_client
+        if self._tx_comp is not None and payload:
+            payload = self._tx_comp.compress(payload) + self._tx_comp.flush(_zlib.Z_SYNC_FLUSH)
+        if was_success:
+            self._auth_done()
         if padlen is None:
             counted = 1 + len(payload) + (0 if tx.len_separate else 4)
             padlen = tx.block - counted % tx.block        # total a multiple of max(8, block size) ...
@@ -562,6 +573,15 @@ class MiniSSH:
         if padlen < 4 or padlen > length - 2:            # at least 4 bytes padding, at least 1 byte payload
             raise MiniSSHError('padding', 'padding_length %d in packet_length %d' % (padlen, length))
         payload = rec['payload'] = body[1:length - padlen]
+        if self._rx_comp is not None:
+            try:
+                payload = rec['uncompressed'] = self._rx_comp.decompress(payload)   # rec['payload'] stays as on the wire
+            except _zlib.error as exc:
+                raise MiniSSHError('decompress', str(exc)) from None
+            if not payload:
+                raise MiniSSHError('decompress', 'empty payload after decompression')
+        if payload[0] == 52 and self.is_client:
+            self._auth_done()
         self.recv_seq = (seq + 1) % 2 ** 32
         self.log.append(('recv', payload[0]))
         self._dispatch(seq, payload)
@@ -735,6 +755,8 @@ class MiniSSH:
         new_tx = self._protection(ours, sending=True)
         self._frame(bytes([MSG_NEWKEYS]))
         self._tx = new_tx
+        self._tx_comp_alg = self.negotiated['comp_' + ours]
+        self._tx_comp = self._new_comp(self._tx_comp_alg, True)
         if self.strict:
             self.send_seq = 0                                # strict KEX: reset after sending NEWKEYS
         self._eph, self._stage = None, 'wait_newkeys'
@@ -743,10 +765,27 @@ class MiniSSH:
         for payload in deferred:
             self.send(payload)
 
+    def _new_comp(self, alg, sending):
+        if alg == b'zlib' or (alg == b'zlib@openssh.com' and self.authenticated):
+            return _zlib.compressobj() if sending else _zlib.decompressobj()
+        return None
+
+    def _auth_done(self):
+        """USERAUTH_SUCCESS was sent (server) / received (client): delayed compression starts with the next
+        packet in both directions (OpenSSH PROTOCOL 'zlib@openssh.com')."""
+        if not self.authenticated:
+            self.authenticated = True
+            if self._tx_comp_alg == b'zlib@openssh.com' and self._tx_comp is None:
+                self._tx_comp = _zlib.compressobj()
+            if self._rx_comp_alg == b'zlib@openssh.com' and self._rx_comp is None:
+                self._rx_comp = _zlib.decompressobj()
+
     def _on_newkeys(self):
         if self._stage != 'wait_newkeys':
             raise MiniSSHError('unexpected_newkeys')
         self._rx, self._pending_rx = self._pending_rx, None
+        self._rx_comp_alg = self.negotiated['comp_' + ('sc' if self.is_client else 'cs')]
+        self._rx_comp = self._new_comp(self._rx_comp_alg, False)
         if self.strict:
             self.recv_seq = 0                                # strict KEX: reset after receiving NEWKEYS
         self._stage = None
